@@ -67,6 +67,19 @@ template <class T> struct ShiftAcc {
   constexpr reference access(data_handle_type p, size_t i) const noexcept { return p[i + 1000]; }
   constexpr data_handle_type offset(data_handle_type p, size_t i) const noexcept { return p + i; }
 };
+// ---- an accessor whose access() returns a reference INTO THE ACCESSOR OBJECT ITSELF (a "broadcast" value): the element designated by
+//      m[idx] is accessor().access(...), i.e. lives inside the view object m - not inside a copy of it
+template <class T> struct SelfAcc {
+  using offset_policy = SelfAcc; using element_type = T; using reference = const int&; using data_handle_type = T*;
+  int value = 42;
+  constexpr SelfAcc() noexcept = default;
+  constexpr explicit SelfAcc(int v) noexcept : value(v) {}
+  template <class U, class = std::enable_if_t<std::is_convertible<U (*)[], T (*)[]>::value>> constexpr SelfAcc(const SelfAcc<U>& o) noexcept : value(o.value) {}
+  constexpr reference access(data_handle_type, size_t) const noexcept { return value; }
+  constexpr data_handle_type offset(data_handle_type p, size_t i) const noexcept { return p + i; }
+};
+template <class A> struct isSelfAcc : std::false_type {};
+template <class T> struct isSelfAcc<SelfAcc<T>> : std::true_type {};
 template <class A> int accId(const A&) { return -1; }
 template <class T> int accId(const StAcc<T>& a) { return a.id; }
 template <class T> int accId(const PxAcc<T>& a) { return a.id; }
@@ -176,7 +189,7 @@ template <class MDS, class S, size_t... K> long atCls(const MDS& m, const std::v
   return refAddr(VH_AT(m, IdxLike<S>{static_cast<S>(v[K])}...));
 }
 template <class MDS, size_t... K> void wrPack(const MDS& m, const std::vector<long long>& v, int val, std::index_sequence<K...>) {
-  VH_AT(m, static_cast<long>(v[K])...) = val;
+  if constexpr (std::is_assignable_v<typename MDS::reference, int>) VH_AT(m, static_cast<long>(v[K])...) = val;
 }
 template <class MDS, class S> long atForm(const MDS& m, const std::string& form, const std::vector<long long>& v) {
   constexpr size_t R = MDS::rank();
@@ -292,6 +305,7 @@ template <Kind K, class E, size_t SP, class A, class MDS2, class MDS3 = MDS2> vo
         lastIdx().clear();
         long p = atTyped(*pool[num_(1)], a[2], a[3], lst(4));
         std::string s = p != -1000000 ? "a=" + std::to_string(p) : std::string("no-form");
+        if constexpr (isSelfAcc<A>::value) { if (p != -1000000) s = (p == refAddr(pool[num_(1)]->accessor().value)) ? "a=self" : "a=not-the-view's-accessor"; }
         if (K == KUser) s += " ix=" + list(lastIdx());
         if (!accessLog().empty()) s += " log=" + std::to_string(accessLog()[0].first) + "," + std::to_string(accessLog()[0].second) + " n=" + std::to_string(accessLog().size());
         emit(s); continue;
